@@ -294,19 +294,19 @@ enum Commands {
 fn parse_capacity(s: &str) -> Result<usize> {
     let s = s.trim().to_uppercase();
 
-    if let Some(num_str) = s.strip_suffix('K') {
-        let num: usize = num_str.parse()?;
-        Ok(num * 1024)
+    let (num_str, multiplier): (&str, usize) = if let Some(num_str) = s.strip_suffix('K') {
+        (num_str, 1024)
     } else if let Some(num_str) = s.strip_suffix('M') {
-        let num: usize = num_str.parse()?;
-        Ok(num * 1024 * 1024)
+        (num_str, 1024 * 1024)
     } else if let Some(num_str) = s.strip_suffix('G') {
-        let num: usize = num_str.parse()?;
-        Ok(num * 1024 * 1024 * 1024)
+        (num_str, 1024 * 1024 * 1024)
     } else {
         // No suffix, parse as bytes
-        Ok(s.parse()?)
-    }
+        (s.as_str(), 1)
+    };
+    let num: usize = num_str.parse()?;
+    num.checked_mul(multiplier)
+        .ok_or_else(|| anyhow::anyhow!("Queue capacity '{s}' is too large"))
 }
 
 /// Extract sample name from file path by stripping all genomic file extensions
@@ -506,6 +506,10 @@ fn create_archive(
             num_cpus - 1
         }
     });
+
+    if num_threads == 0 {
+        anyhow::bail!("Number of threads must be at least 1");
+    }
 
     // Initialize Rayon's global thread pool with the user's thread count
     // This MUST happen BEFORE any par_iter() is called (e.g., in splitter discovery)
